@@ -8,6 +8,7 @@ package sftp
 // step numbers that porcupine checks against the sequential byte-array model.
 
 import (
+	"context"
 	"fmt"
 	"io"
 	"os"
@@ -126,11 +127,33 @@ func c15Scenario(s c15Spec) explore.Scenario {
 			}
 			results := make([][]lin.Op, len(s.callers))
 			var g vgroup
+			lsCtx, lsCancel := context.WithCancel(context.Background())
+			defer lsCancel()
+			for _, ops := range s.callers {
+				for _, o := range ops {
+					if o.kind == "lsabandon" {
+						g.Go("canceller", func() {
+							vsched.Env("lin.cancel", &lsCtx, false, nil) // at a point the explorer chooses
+							lsCancel()
+						})
+					}
+				}
+			}
 			for ci := range s.callers {
 				ci := ci
 				g.Go(fmt.Sprintf("caller%d", ci), func() {
 					for _, o := range s.callers[ci] {
 						f := files[o.handle]
+						if o.kind == "lsabandon" {
+							// the connection is used for a directory listing which its caller abandons at some point (or not at
+							// all); not an operation on the file, hence not part of the history
+							dir := "/"
+							if s.server == "os" {
+								dir = "."
+							}
+							c.ReadDirContext(lsCtx, dir)
+							continue
+						}
 						// call and return are operations on one shared object: their order (the real-time order the
 						// history is judged with) is then part of the happens-before relation, which makes the state
 						// cache sound for this harness
@@ -290,6 +313,9 @@ func c15Specs(set, server string, alloc bool) []c15Spec {
 			b,
 			mk(2, []c15Op{pr(0), r(2, 1)}, []c15Op{pw("ab", 0), pr(1)}),
 		}
+	case "abandon": // the connection has carried a directory listing that its caller abandoned (context cancelled at any point)
+		a := mk(1, []c15Op{{kind: "lsabandon"}, w(0, "ab", 0), r(0, 0)}, []c15Op{r(0, 0)})
+		return []c15Spec{a}
 	case "2x1":
 		return []c15Spec{
 			mk(1, []c15Op{w(0, "ab", 0)}, []c15Op{r(0, 0)}),
@@ -366,7 +392,9 @@ func init() {
 					j("os W=2 Read/Write at the shared File position db3", "instr-w2", "os", "pos", 3, 600, false),
 					j("rs W=2 one-packet read || one-packet write of 40000 bytes db3", "instr-w2", "rs", "bigpkt", 3, 600, false),
 					j("os W=2 one-packet read || one-packet write of 40000 bytes db2", "instr-w2", "os", "bigpkt", 2, 600, false),
-				}, func(j reg.Job) bool { return j.Args["server"] != "os" })
+					j("rs W=2 after an abandoned directory listing: write, read || read db3", "instr-w2", "rs", "abandon", 3, 600, false),
+					j("os W=2 after an abandoned directory listing: write, read || read db2", "instr-w2", "os", "abandon", 2, 600, false),
+				}, func(j reg.Job) bool { return j.Args["server"] != "os" && j.Args["set"] != "abandon" })
 			}
 			return withPolicies(tier, []reg.Job{
 				j("rs W=2 2x2 db2", "instr-w2", "rs", "2x2", 2, 100, false),
@@ -375,7 +403,8 @@ func init() {
 				j("rs W=2 store read fails part-way db2", "instr-w2", "rs", "partial", 2, 100, false),
 				j("rs W=2 Read/Write at the shared File position db2", "instr-w2", "rs", "pos", 2, 100, false),
 				j("rs W=2 one-packet read || one-packet write of 40000 bytes db2", "instr-w2", "rs", "bigpkt", 2, 100, false),
-			}, func(j reg.Job) bool { return j.Args["server"] != "os" })
+				j("rs W=2 after an abandoned directory listing: write, read || read db2", "instr-w2", "rs", "abandon", 2, 100, false),
+			}, func(j reg.Job) bool { return j.Args["server"] != "os" && j.Args["set"] != "abandon" })
 		},
 	})
 }
